@@ -65,6 +65,10 @@ def main():
            "pid": a.pid}
     for mod, fn in REGISTRY.get(a.pid, []):
         t0 = time.time()
+        # progress note for the parent: it watches this process's memory and
+        # must know which check was running if it has to kill it
+        with open(a.out + ".progress", "w") as f:
+            json.dump({"running": fn, "results": results}, f, default=str)
         try:
             m = importlib.import_module(mod)
             rs = getattr(m, fn)(ctx)
